@@ -252,8 +252,34 @@ def cmp_c01(rec, job, obs, gram):
             d.append((form + ".parse_partial.ok", rec["ok"], pp.get("ok")))
         elif rec["ok"] and pp.get("end") != rec["end"]:
             d.append((form + ".parse_partial.end", rec["end"], pp.get("end")))
-        break   # C01 is about the prefix parse; forms are C08's business
+        if not ALL_FORMS:
+            break   # on the main corpus only the first form is compared (whole strings); the forms pass compares all three
     return d
+
+
+ALL_FORMS = False
+
+
+def forms_grams(tier):
+    """family sub (every kind of matcher next to the end / start of a sub-input, 11 contexts) + family trig inside contexts: the
+    corpus of the 'forms pass' in which a check compares the &str, Position and Span forms of the same parse"""
+    F = families
+    g = [dict(x) for x in F.fam_sub(tier)]
+    ctx = [[cps(a), cps(b)] for a, b in [["", ""], ["", "b"], ["x", ""], ["a", "b!"], ["é", "é"], ["", "1"]]]
+    for x in F.fam_trig(tier):
+        g.append(dict(x, ctxs=ctx, maxlen=min(x.get("maxlen", 2), 2)))
+    return g
+
+
+def forms_pass(ctx, tag, cmp, tier, emit="core", modes="spn"):
+    global ALL_FORMS
+    ALL_FORMS = True
+    try:
+        rows = run_generic(ctx, tag, forms_grams(tier), modes, cmp, emit=emit, with_pest=False, famname="formsf")
+    finally:
+        ALL_FORMS = False
+    ctx.notes["forms_pass_behaviours"] = len(rows)
+    return rows
 
 
 
@@ -270,7 +296,7 @@ def cmp_c02(rec, job, obs, gram):
     d = []
     if not rec["ok"]:
         return d
-    for form in forms_of(obs)[:1]:
+    for form in (forms_of(obs) if ALL_FORMS else forms_of(obs)[:1]):
         pp = typed_form(obs, form, "pp")
         if is_bad(pp) or not pp.get("ok"):
             continue    # verdict is C01's business
@@ -496,8 +522,8 @@ def cmp_c10(rec, job, obs, gram):
 
 def report_equal(rec, obs):
     ppt = typed_form(obs, "str", "ppt") or typed_form(obs, "span", "ppt")
-    if not ppt or ppt.get("ok") or rec["ok"]:
-        return None
+    if not ppt or ppt.get("ok") or rec["ok"] or not isinstance(ppt.get("trk"), dict):
+        return None      # (also: the observation is a caught panic; that is the comparer's business, this count is informative only)
     m = [{"u": None if e["u"] == "-" else e["u"], "p": e["p"], "n": e["n"], "s": len(e["s"])} for e in rec["trk"]["att"]]
     o = [{"u": e["u"], "p": e["p"], "n": e["n"], "s": len(e["s"])} for e in ppt["trk"]["att"]]
     key = lambda e: str(e["u"])
@@ -507,7 +533,7 @@ def report_equal(rec, obs):
 def cmp_c05(rec, job, obs, gram):
     """failed attempts leave no trace: verdict, offset and final stack as the immutable-stack denotation says (parse and check paths)"""
     d = []
-    for form in forms_of(obs)[:1]:
+    for form in (forms_of(obs) if ALL_FORMS else forms_of(obs)[:1]):
         pp, cp, ppt, cpt = (typed_form(obs, form, k) for k in ("pp", "cp", "ppt", "cpt"))
         for nm, o in (("pp", pp), ("cp", cp), ("ppt", ppt), ("cpt", cpt)):
             if is_bad(o):
@@ -537,7 +563,7 @@ def cmp_c06(rec, job, obs, gram):
 def cmp_c07(rec, job, obs, gram):
     """implicit skipping / atomicity: verdict, offset, token spans (parse), verdict / offset (check)"""
     d = []
-    for form in forms_of(obs)[:1]:
+    for form in (forms_of(obs) if ALL_FORMS else forms_of(obs)[:1]):
         pp, cp = typed_form(obs, form, "pp"), typed_form(obs, form, "cp")
         for nm, o in (("pp", pp), ("cp", cp)):
             if is_bad(o):
@@ -681,6 +707,7 @@ def check_C01(tier, seed):
     grams = grams_for("C01", tier, seed)
     ctx.notes["grammars"] = len(grams)
     rows = run_generic(ctx, "c01", grams, "sP", cmp_c01)
+    forms_pass(ctx, "c01f", cmp_c01, tier)
     import tracechk
     sub = [dict(g) for g in grams if tracechk.eligible(g)]
     sub = (sub[::4] if tier == "quick" else sub) + families.fam_json(tier, seed)       # + long JSON documents on the repository's benchmark grammar
@@ -693,6 +720,7 @@ def check_C02(tier, seed):
     grams = grams_for("C02", tier, seed)
     ctx.notes["grammars"] = len(grams)
     run_generic(ctx, "c02", grams, "sP", cmp_c02, famname="c01")
+    forms_pass(ctx, "c02f", cmp_c02, tier)
     return ctx.finish(rule=RULE_A + "Decisive: the token tree of self_or_children() (rule, start, end, depth in pre-order) against Prune(Tokens) of the model; Tokens itself is validated against pest's Pairs on every behaviour where pest is defined.")
 
 
@@ -900,6 +928,7 @@ def check_C05(tier, seed):
     grams = grams_for("C05", tier, seed)
     ctx.notes["grammars"] = len(grams)
     rows = run_generic(ctx, "c05", grams, "sP", cmp_c05)
+    forms_pass(ctx, "c05f", cmp_c05, tier)
     stack_adt(ctx, tier)
     import tracechk
     tracechk.validate(ctx, "c05", [dict(g) for g in grams], seed, 6 if tier == "quick" else 40, rows=rows)
@@ -919,6 +948,7 @@ def check_C07(tier, seed):
     grams = grams_for("C07", tier, seed)
     ctx.notes["grammars"] = len(grams)
     rows = run_generic(ctx, "c07", grams, "sP", cmp_c07)
+    forms_pass(ctx, "c07f", cmp_c07, tier)
     import tracechk
     sub = [dict(g) for g in grams if tracechk.eligible(g)]
     tracechk.validate(ctx, "c07", sub[::3] if tier == "quick" else sub, seed, 4 if tier == "quick" else 20, rows=rows)
